@@ -3,6 +3,7 @@ import RoaringModel.Lsb0
 import RoaringModel.SpecLsb0
 import RoaringModel.Fmt
 import RoaringModel.Serde
+import RoaringModel.SafeCodec
 /-! Driver handlers: family `misc` — `from_lsb0` (C17), `stats` (C20), `serde_*` (C19), `debug` (C16) -/
 namespace Roaring.Driver
 open Roaring
@@ -27,9 +28,12 @@ def opsLsb0 : Handler := fun st toks =>
     -- SPEC: inside the documented domain the call succeeds with exactly the set bits; outside it
     -- (slice extends past 2^32) the property allows the panic and the code's answer is taken
     let fits := Spec.lsb0Fits off bytes
+    -- C16: every arithmetic site of `from_lsb0_bytes` and the store constructors under it (`Lsb0.Safe_fromLsb0`), on
+    -- the documented domain `offset + 8·len ≤ 2^32` (outside it the op is the documented panic)
+    let safe := safeMark "from_lsb0" (off + 8 * bytes.length > 4294967296 || decide (Lsb0.Safe_fromLsb0 st.dbg off bytes))
     match Lsb0.fromLsb0 st.dbg off bytes with
-    | some m => pure (st.setB i ⟨m, Spec.bitsOfBytes off bytes⟩, "ok")
-    | none => pure (st, specMark "panic" (if fits then "ok" else "panic"))
+    | some m => pure (st.setB i ⟨m, Spec.bitsOfBytes off bytes⟩, "ok" ++ safe)
+    | none => pure (st, specMark "panic" (if fits then "ok" else "panic") ++ safe)
   | ["stats", d] => do
     let (_, sl) ← b? d
     pure (st, specMark (showStats (Bitmap.statisticsM sl.m) (Bitmap.serializedSize sl.m))
